@@ -63,6 +63,22 @@ type c09D struct {
 	Count int       `query:"count" form:"count" header:"X-Count"`
 }
 
+// destinations with their own conversion: bound only through an explicit tag as well
+type c09Str string
+
+func (s *c09Str) UnmarshalText(b []byte) error { *s = c09Str(b); return nil }
+
+type c09List []string
+
+func (l *c09List) UnmarshalParams(vs []string) error { *l = append(c09List(nil), vs...); return nil }
+
+type c09E struct {
+	c09Embedded `query:"emb"` // a tag on an anonymous struct field is an error as soon as query data is bound
+	Alias       c09Str        `query:"alias" form:"alias" header:"X-Alias"`
+	List        c09List       `query:"list" form:"list"`
+	Name        string        `form:"name" param:"name"`
+}
+
 var c09Sources = []string{"param", "query", "form", "header"}
 
 func c09TypeSx(t reflect.Type) Sx {
@@ -186,6 +202,11 @@ func c09Expect(t reflect.Type, pre []int, sources []map[string][]string, srcIdx 
 		}
 		p := append(append([]int(nil), pre...), i)
 		if f.Type.Kind() == reflect.Struct {
+			for k, data := range sources {
+				if f.Anonymous && f.Tag.Get(c09Sources[srcIdx[k]]) != "" && len(data) > 0 {
+					*bad = true // tags are not allowed on an anonymous struct field
+				}
+			}
 			c09Expect(f.Type, p, sources, srcIdx, exp, bad)
 			continue
 		}
@@ -240,9 +261,9 @@ func keysOfAny(d map[string]interface{}) []string {
 
 func genC09(rng *rand.Rand, n int, emit func(Case), dist map[string]int) {
 	e := echo.New()
-	shapes := []func() interface{}{func() interface{} { return &c09A{} }, func() interface{} { return &c09B{} }, func() interface{} { return &c09C{} }, func() interface{} { return &c09D{} }}
+	shapes := []func() interface{}{func() interface{} { return &c09A{} }, func() interface{} { return &c09B{} }, func() interface{} { return &c09C{} }, func() interface{} { return &c09D{} }, func() interface{} { return &c09E{} }}
 	keyPool := []string{"id", "ID", "Id", "name", "Name", "NAME", "admin", "Admin", "role", "Role", "secret", "tags", "Tags", "city", "City", "zip", "Zip", "plain", "Plain",
-		"token", "X-Token", "level", "Level", "owner", "Owner", "nums", "hidden", "Hidden", "q", "Q", "mixed", "Mixed", "count", "Count", "pid", "Pid", "pname", "ptags", "PTags", "X-Pid", "X-Pname", "X-Count", "other", "Addr", "addr.city", "c09Embedded", "Token", "", "", " ", "id[]", "Id[]", "name[]", "tags[]", "nums[]", "X-Token[]", "q[]"}
+		"token", "X-Token", "level", "Level", "owner", "Owner", "nums", "hidden", "Hidden", "q", "Q", "mixed", "Mixed", "count", "Count", "alias", "Alias", "X-Alias", "list", "List", "emb", "pid", "Pid", "pname", "ptags", "PTags", "X-Pid", "X-Pname", "X-Count", "other", "Addr", "addr.city", "c09Embedded", "Token", "", "", " ", "id[]", "Id[]", "name[]", "tags[]", "nums[]", "X-Token[]", "q[]"}
 	vals := func(key string, k int) []string {
 		var out []string
 		for i := 0; i < k; i++ {
